@@ -1058,6 +1058,26 @@ def param_mutations(fn: ast.AST) -> list[ast.AST]:
     if isinstance(fn, ast.Lambda):
         return []
     ps = {a.arg for a in fn.args.posonlyargs + fn.args.args + fn.args.kwonlyargs} - {"self", "cls"}
+
+    def may_be_param(e: ast.AST) -> str | None:
+        if isinstance(e, ast.Name) and e.id in ps:
+            return e.id
+        if isinstance(e, ast.IfExp):
+            return may_be_param(e.body) or may_be_param(e.orelse)
+        if isinstance(e, ast.BoolOp):
+            return next((r for r in map(may_be_param, e.values) if r), None)
+        return None
+
+    # locals that may be the very object a parameter refers to (`m = {} if p is None else p`)
+    alias = {}
+    for s in walk_body(fn):
+        v = s.value if isinstance(s, (ast.Assign, ast.AnnAssign)) else None
+        tgts = (s.targets if isinstance(s, ast.Assign) else [s.target]) if v is not None else []
+        src = may_be_param(v) if v is not None else None
+        if src:
+            for t in tgts:
+                if isinstance(t, ast.Name) and t.id not in ps:
+                    alias[t.id] = src
     out = []
     for n in walk_body(fn):
         base = None
@@ -1072,6 +1092,9 @@ def param_mutations(fn: ast.AST) -> list[ast.AST]:
             base = n.args[0]
         while isinstance(base, (ast.Subscript, ast.Attribute)):
             base = base.value
+        if isinstance(base, ast.Name) and base.id in alias:
+            out.append(n)
+            continue
         if isinstance(base, ast.Name) and base.id in ps:
             # re-bound locally before the write? then it is no longer the caller's object
             rebound = any(isinstance(s, ast.Assign) and any(isinstance(t, ast.Name) and t.id == base.id for t in s.targets) and s.lineno < n.lineno
